@@ -107,3 +107,121 @@ Proof.
   apply IH; [exact H3|]. pose proof (skipn_length_lt c t). cbn [length] in Hf. lia.
 Qed.
 End V1.
+
+(* ---------------------------------------------------------------- serve over the v1 reader *)
+Definition ok_outcome (o : outcome) : Prop := o <> OPanic /\ o <> OFuel.
+
+Lemma lift_ok : forall {A} (r : res A) (k : A -> outcome),
+  is_val r -> (forall a, r = Val a -> ok_outcome (k a)) -> ok_outcome (lift r k).
+Proof. intros A r k [a ->] H. cbn. apply H. reflexivity. Qed.
+
+Lemma ok_reply : forall r, ok_outcome (OReply r).
+Proof. split; discriminate. Qed.
+Lemma ok_servfail : forall q, ok_outcome (servfail q).
+Proof. intros; apply ok_reply. Qed.
+
+Section ServeV1.
+Variable b : backend.
+Variable st : store.
+Let rd := reader_v1 b st.
+
+Lemma additional_v1_val : forall recs loc qc m c, is_val (additional unit rd recs loc qc m c).
+Proof.
+  induction recs as [|it t IH]; intros loc qc m c; cbn [additional]; [eexists; reflexivity|].
+  destruct (target_of it) as [name|]; [|apply IH].
+  destruct (negb (has_record m name 1) || negb (has_record m name 28)); [|apply IH].
+  unfold rd at 1, reader_v1 at 1. cbn [rd_rr].
+  destruct (for_each_rr_v1 b st name loc _ wrs_empty) as [w e]. cbn [bind]. apply IH.
+Qed.
+
+Lemma serve_sections_v1_ok : forall q ecs loc auth zc an rcode c,
+  ok_outcome (serve_sections unit rd q ecs loc auth zc an rcode c).
+Proof.
+  intros. unfold serve_sections. destruct (parse_name zc) as [[zname rest]|]; [|apply ok_servfail].
+  apply lift_ok.
+  - destruct (auth && (item_count an =? 0)).
+    + unfold rd, reader_v1; cbn [rd_rr]. destruct (for_each_rr_v1 b st zc loc _ _) as [s e]. eexists; reflexivity.
+    + destruct (negb auth && negb (has_record (mkMsg an [] []) zname 2)); [|eexists; reflexivity].
+      unfold rd, reader_v1; cbn [rd_rr]. destruct (for_each_rr_v1 b st zc loc _ _) as [s e]. eexists; reflexivity.
+  - intros [nsec c4] _. apply lift_ok.
+    + destruct (additional_v1_val (m_an (mkMsg an nsec [])) loc (q_class q) (mkMsg an nsec []) c4) as [[m1 c5] E].
+      rewrite E. cbn [bind]. apply additional_v1_val.
+    + intros [m2 c6] _. apply ok_reply.
+Qed.
+
+Lemma serve_answer_v1_ok : forall q ecs loc max packed ar c,
+  wnP packed -> ok_outcome (serve_answer unit rd q ecs loc max packed ar c).
+Proof.
+  intros q ecs loc max packed ar c Hw. unfold serve_answer. apply lift_ok.
+  - destruct (a_auth ar); [|eexists; reflexivity].
+    unfold rd, reader_v1; cbn [rd_answer]. unfold find_answer_v1.
+    destruct (find_ans_v1_val b st (S (length packed)) packed (a_zc ar) (q_name q) (q_type q) loc false
+                (wrs_empty, [], false) Hw (Nat.lt_succ_diag_r _)) as [s E].
+    rewrite E. cbn [bind]. destruct (fa_finish (q_name q) max s) as [an found]. cbn [bind]. eexists; reflexivity.
+  - intros [[an rcode] c3] _. apply serve_sections_v1_ok.
+Qed.
+
+Lemma serve_ds_v1_val : forall q loc packed ar c, wnP packed -> is_val (serve_ds unit rd q loc packed ar c).
+Proof.
+  intros q loc packed ar c Hw. unfold serve_ds.
+  destruct (negb (a_auth ar) && (q_type q =? 43)); [|eexists; reflexivity].
+  destruct (wnP_nonempty packed Hw) as [p0 [t ->]].
+  unfold idx; cbn [nth_error N.to_nat bind].
+  destruct (p0 =? 0) eqn:E; [eexists; reflexivity|].
+  apply N.eqb_neq in E. destruct (wnP_step p0 t Hw E) as [H1 [H2 H3]].
+  assert (Hb : b8 (p0 + 1) = p0 + 1) by (unfold b8; apply N.mod_small; lia).
+  rewrite Hb. unfold slice_from.
+  assert (Hle : (p0 + 1 <=? nlen (p0 :: t)) = true) by (unfold nlen in *; cbn [length]; lia).
+  rewrite Hle. cbn [bind].
+  replace (N.to_nat (p0 + 1)) with (S (N.to_nat p0)) by lia. cbn [skipn].
+  unfold rd, reader_v1; cbn [rd_auth]. unfold is_authoritative_v1.
+  destruct (is_auth_v1_val b st (S (length (skipn (N.to_nat p0) t))) (skipn (N.to_nat p0) t) loc false false H3
+              (Nat.lt_succ_diag_r _)) as [a [E2 _]].
+  rewrite E2. cbn [bind]. destruct (a_err a); eexists; reflexivity.
+Qed.
+
+Lemma serve_v1_ok : forall q locr ecs max,
+  wnP (q_name q) -> ok_outcome (serve_with unit rd tt q locr ecs max).
+Proof.
+  intros q locr ecs max Hw. unfold serve_with.
+  assert (Hp : wnP (lower_bytes (q_name q))).
+  { destruct Hw as [f H]. exists f. apply wire_name_lower. exact H. }
+  assert (main : ok_outcome
+    match locr with
+    | LocOk loc =>
+        lift (rd_auth unit rd tt (lower_bytes (q_name q)) loc)
+          (fun x => let '(ar, c1) := x in
+             if a_err ar then servfail q
+             else if negb (a_ns ar) && negb (a_auth ar)
+                  then OReply (mkResp (q_id q) (question_of q) 5 false [] [] [] (opt_of q ecs))
+                  else lift (serve_ds unit rd q loc (lower_bytes (q_name q)) ar c1)
+                         (fun r => match r with
+                                   | Some (ar', c2) => serve_answer unit rd q ecs loc max (lower_bytes (q_name q)) ar' c2
+                                   | None => servfail q
+                                   end))
+    | _ => ONoReply
+    end).
+  { destruct locr as [| |loc]; try (split; discriminate).
+    apply lift_ok.
+    - unfold rd, reader_v1; cbn [rd_auth]. unfold is_authoritative_v1.
+      destruct (is_auth_v1_val b st (S (length (lower_bytes (q_name q)))) (lower_bytes (q_name q)) loc false false Hp
+                  (Nat.lt_succ_diag_r _)) as [a [E _]].
+      rewrite E. eexists; reflexivity.
+    - intros [ar c1] _. destruct (a_err ar); [apply ok_servfail|].
+      destruct (negb (a_ns ar) && negb (a_auth ar)); [apply ok_reply|].
+      apply lift_ok; [apply serve_ds_v1_val; exact Hp|].
+      intros [[ar' c2]|] _; [apply serve_answer_v1_ok; exact Hp | apply ok_servfail]. }
+  destruct (q_edns q) as [[|p]|]; [exact main | apply ok_reply | exact main].
+Qed.
+End ServeV1.
+
+(* C13 for CDB and RocksDB with v1 keys *)
+Theorem serve_no_panic_v1 : forall b st q locr ecs max,
+  b <> RDB2 -> wire_name (q_name q) = true ->
+  serve b st q locr ecs max <> OPanic /\ serve b st q locr ecs max <> OFuel.
+Proof.
+  intros b st q locr ecs max Hb Hw.
+  assert (Hp : wnP (q_name q)).
+  { unfold wire_name in Hw. apply andb_prop in Hw as [Hw _]. eexists; exact Hw. }
+  destruct b; [| |contradiction]; unfold serve; apply serve_v1_ok; exact Hp.
+Qed.
